@@ -37,7 +37,7 @@ EXTENDS Integers, Sequences, FiniteSets, TLC
 
 CONSTANTS MaxRoots,   \* message variables (constructed or copied)
           MaxViews,   \* view handles (x = m.r, x = m.sub, ...)
-          MaxLen,     \* bound on the length of a repeated field
+          MaxElems,     \* bound on the length of a repeated field
           Depth,      \* bound on the length of a history
           Flags,      \* FALSE: ideal (content) freezing; TRUE: wrapper-group flags
           Rich        \* TRUE: also the element-aliasing operations on repeated message fields
@@ -72,7 +72,8 @@ ListsOf(S) == ({M[o].r : o \in S} \cup {M[o].rm : o \in S}) \ {0}
 MapsOf(S)  == {M[o].mp : o \in S} \ {0}
 
 \* a message value is a tree: no message may contain itself
-Acyclic == \A o \in 1..Len(M) : o \notin ReachIn(M, L, Kids(M, L, o))
+AcyclicIn(Mx, Lx) == \A o \in 1..Len(Mx) : o \notin ReachIn(Mx, Lx, Kids(Mx, Lx, o))
+Acyclic == AcyclicIn(M, L)
 
 RECURSIVE Tree(_)
 Tree(o) == [i   |-> M[o].i,
@@ -103,10 +104,14 @@ FrzP(h, p) == IF Flags THEN H[h].rt \in cells ELSE p \in FP
 
 (***************************************************************************)
 (* One step: the operation either succeeds with a new store / handle list  *)
-(* or fails and changes nothing.                                           *)
+(* or fails and changes nothing.  Operations that would make a message     *)
+(* contain itself are outside the model (a message value is a tree; lists  *)
+(* shared by a shallow copy have several owners, so the whole candidate    *)
+(* store is tested); they are covered by the separate cycle probes.        *)
 (***************************************************************************)
 Step(op, h, g, k, ok, nM, nL, nP, nH) ==
   /\ Len(hist) < Depth
+  /\ ok => AcyclicIn(nM, nL)
   /\ hist' = Append(hist, <<op, h, g, k, ok>>)
   /\ IF ok THEN M' = nM /\ L' = nL /\ P' = nP /\ H' = nH
            ELSE UNCHANGED <<M, L, P, H>>
@@ -205,7 +210,7 @@ SubSetI(h) == LET s == M[H[h].o].sub k == IF s = 0 THEN 1 ELSE Bump(M[s].i) IN
   Step("sub.seti", h, 0, k, s # 0 /\ ~FrzM(h, s), IF s = 0 THEN M ELSE SetFld(s, "i", k), L, P, H)
 
 ListAppend(op, h, g, l, x, k) ==
-  /\ (IF l = 0 THEN TRUE ELSE Len(L[l]) < MaxLen)
+  /\ (IF l = 0 THEN TRUE ELSE Len(L[l]) < MaxElems)
   /\ Step(op, h, g, k, l # 0 /\ ~FrzL(h, l), M, IF l = 0 THEN L ELSE [L EXCEPT ![l] = Append(@, x)], P, H)
 ListSet0(op, h, g, l, x, k) ==
   Step(op, h, g, k, l # 0 /\ ~FrzL(h, l), M, IF l = 0 THEN L ELSE [L EXCEPT ![l][1] = x], P, H)
@@ -297,7 +302,7 @@ TypeOK ==
   /\ \A o \in 1..Len(M) : /\ M[o].i \in 0..2
                           /\ M[o].sub \in 0..Len(M)
                           /\ M[o].r \in 0..Len(L) /\ M[o].rm \in 0..Len(L) /\ M[o].mp \in 0..Len(P)
-  /\ \A l \in 1..Len(L) : Len(L[l]) \in 1..MaxLen
+  /\ \A l \in 1..Len(L) : Len(L[l]) \in 1..MaxElems
   /\ \A h \in Handles : H[H[h].rt].rt = H[h].rt
   /\ FM \subseteq 1..Len(M) /\ FL \subseteq 1..Len(L) /\ FP \subseteq 1..Len(P)
 
